@@ -280,13 +280,14 @@ def worker(task):
             if failures >= 3 or (failures and time.time() - t_solve > 6 * budget_s):
                 # the verdict for this function is settled: do not burn solver time on the rest
                 out["obligations"].append({"name": name, "kind": ob.kind, "status": "skipped", "solver": "-", "time": 0.0,
-                                           "clause": ob.info.get("clause", ""), "raised": ob.info.get("raised")})
+                                           "clause": ob.info.get("clause", "") + (f" [raised at {ob.info['where'][0]} line {ob.info['where'][1]}]" if ob.info.get("where") else ""), "raised": ob.info.get("raised")})
                 continue
             status, solver, dt, model, smt2 = solve_obligation(ob, budget_s, tmpdir, re.sub(r"\W+", "_", name))
             if status != "unsat":
                 failures += 1
             rec = {"name": name, "kind": ob.kind, "status": status, "solver": solver, "time": round(dt, 3),
-                   "clause": ob.info.get("clause", ""), "raised": ob.info.get("raised")}
+                   "clause": ob.info.get("clause", "") + (f" [raised at {ob.info['where'][0]} line {ob.info['where'][1]}]" if ob.info.get("where") else ""),
+                   "raised": ob.info.get("raised")}
             if tier == "thorough" and status == "unsat" and solver.startswith("z3") and mutation is None:
                 rec["confirm"] = confirm_unsat(ob, budget_s, tmpdir, re.sub(r"\W+", "_", name))
             if status == "sat":
